@@ -250,13 +250,17 @@ pub fn c09_all() -> (u64, u64, Vec<Divergence>) {
             let q1 = bb([(f, r + fwd)]);
             let q2 = if r == start_rank { bb([(f, r + 2 * fwd)]) } else { 0 };
             expect("generator-pawn_quiets", format!("{nm} {color:?}"), chess_lookup_generator::pawn_quiets(p)[ci].to_u64(), q1 | q2);
+            // the checked-in table itself (empty board) against the generator
+            expect("table-pawn_quiets-vs-generator", format!("{nm} {color:?}"), chess_lookup::pawn_quiets(p, color, BitBoard::empty()).to_u64(), chess_lookup_generator::pawn_quiets(p)[ci].to_u64());
+            expect("table-pawn_attacks-vs-generator", format!("{nm} {color:?}"), chess_lookup::pawn_attacks_moves(p, color).to_u64(), chess_lookup_generator::pawn_attacks(p)[ci].to_u64());
             // every occupancy of the relevant squares (two attack squares, two push squares),
             // with the rest of the board empty and with the rest of the board full
             let relevant = att | q1 | q2;
             let k = relevant.count_ones();
             for sub in 0..(1u64 << k) {
-                for rest in [0u64, !relevant & !(1u64 << s)] {
-                    let occ = subset(relevant, sub) | rest | (1u64 << s);
+                // (the pawn's own square occupied, as in play, and left out of the occupancy)
+                for (rest, own) in [(0u64, 1u64 << s), (!relevant & !(1u64 << s), 1u64 << s), (0u64, 0u64)] {
+                    let occ = subset(relevant, sub) | rest | own;
                     let all = BitBoard::from_u64(occ);
                     let want_att = att & occ;
                     let mut want_q = 0;
